@@ -283,7 +283,20 @@ func (c *Connection) SendJSON(v interface{}) error {
 
 // Close closes the connection
 func (c *Connection) Close() error {
-	c.hub.unregister <- c
+	// Close is also called from handlers, which run inside the hub loop, the
+	// only receiver of unregister: waiting for the hub here would block the
+	// hub on itself. Hand the request over without waiting when the hub is
+	// not ready to take it.
+	select {
+	case c.hub.unregister <- c:
+	default:
+		go func() {
+			select {
+			case c.hub.unregister <- c:
+			case <-c.hub.shutdown:
+			}
+		}()
+	}
 	return c.conn.Close()
 }
 
